@@ -413,4 +413,57 @@ theorem onError_reaction : ∀ f ∈ allFrontends,
     framing, 515 in ASCII) -/
 theorem generated_udp_buffer : 520 ≤ Generated.syncUdpMaxPacket := by decide
 
+
+/-! ### front-ends and segmentation together -/
+
+theorem allSupported_prefix (p evs : List (Ev Req)) (hp : p <+: evs) (ha : AllSupported evs) : AllSupported p := by
+  obtain ⟨t, rfl⟩ := hp
+  induction p with
+  | nil => trivial
+  | cons e rest ih =>
+    cases e with
+    | raised err => trivial
+    | deliver r uid tid pid => exact ⟨ha.1, ih ha.2⟩
+
+/-- supported requests (data access, identification) never switch listen-only mode on: the Twisted side condition of
+    `C12.serve_chunking_independent` holds along the whole run -/
+theorem listenOff_supported (c1 c2 : Cfg) (h1 : Common c1) (h2 : Common c2) (hi : c1.ignoreMissing = c2.ignoreMissing)
+    (hf : c1.framer = c2.framer) (w1 w2 : World) (hs : Sim w1 w2) (evs : List (Ev Req)) (ha : AllSupported evs) :
+    C12.ListenOff c1 w1 evs ∧ C12.ListenOff c2 w2 evs := by
+  constructor
+  · intro p hp
+    have := (handle_sim c1 c2 h1 h2 hi hf w1 w2 hs p (allSupported_prefix p evs hp ha)).2.l1
+    simp [this]
+  · intro p hp
+    have := (handle_sim c1 c2 h1 h2 hi hf w1 w2 hs p (allSupported_prefix p evs hp ha)).2.l2
+    simp [this]
+
+/-- **Any two stream front-ends, any two ways of cutting the request stream into reads**: for data-access and
+    identification requests (any number, any ids) the bytes written are the same and the datastores end up the same.
+    C06 (segmentation), C09/C12 (one frame per request) and C17 (interchangeable front-ends) in one statement. -/
+theorem frontends_agree_any_chunking (c1 c2 : Cfg) (h1 : Common c1) (h2 : Common c2)
+    (hi : c1.ignoreMissing = c2.ignoreMissing) (hf : c1.framer = c2.framer)
+    (F : C06.Framing) (hF : C12.framingOf c1.framer = some F)
+    (hu1 : c1.frontend ≠ .syncUdp) (hu2 : c2.frontend ≠ .syncUdp)
+    (w1 w2 : World) (hs : Sim w1 w2)
+    (fs : List (VFrame Req)) (hfs : ∀ f ∈ fs, C06.IsBuilt F decServer (hosted w1.units) w1.units.single f)
+    (ch1 ch2 : List Bytes) (hc1 : ch1.flatten = stream fs) (hc2 : ch2.flatten = stream fs)
+    (ha : AllSupported (fs.map (fun f => Ev.deliver f.msg f.uid f.tid f.pid)))
+    (hne : (handleEvents c1 w1 (fs.map (fun f => Ev.deliver f.msg f.uid f.tid f.pid))).2.2 = none) :
+    (serve c1 (openConn c1 w1) w1 ch1).2.2.1.flatten = (serve c2 (openConn c2 w2) w2 ch2).2.2.1.flatten ∧
+    Sim (serve c1 (openConn c1 w1) w1 ch1).2.1 (serve c2 (openConn c2 w2) w2 ch2).2.1 := by
+  obtain ⟨e1, e2⟩ := handle_sim c1 c2 h1 h2 hi hf w1 w2 hs _ ha
+  obtain ⟨lo1, lo2⟩ := listenOff_supported c1 c2 h1 h2 hi hf w1 w2 hs _ ha
+  have hne2 : (handleEvents c2 w2 (fs.map (fun f => Ev.deliver f.msg f.uid f.tid f.pid))).2.2 = none := by
+    rw [← congrArg Prod.snd e1]; exact hne
+  have hfs1 : ∀ f ∈ fs, C06.IsBuilt F decServer (acceptedUnits c1 w1.units) w1.units.single f := by
+    intro f hf'; rw [accepted_common c1 _ h1]; exact hfs f hf'
+  have hfs2 : ∀ f ∈ fs, C06.IsBuilt F decServer (acceptedUnits c2 w2.units) w2.units.single f := by
+    intro f hf'; rw [accepted_common c2 _ h2, ← hs.units]; exact hfs f hf'
+  obtain ⟨a1, a2, _⟩ := C12.serve_chunking_independent c1 F hF hu1 w1 fs hfs1 ch1 hc1 lo1 hne
+  obtain ⟨b1, b2, _⟩ := C12.serve_chunking_independent c2 F (hf ▸ hF) hu2 w2 fs hfs2 ch2 hc2 lo2 hne2
+  refine ⟨?_, ?_⟩
+  · rw [a2, b2]; exact congrArg Prod.fst e1
+  · rw [a1, b1]; exact e2
+
 end Pymodbus.Props.C17
